@@ -18,7 +18,7 @@ RULE = (
     "quotient; metamorphic: mag(a*b)=mag(b*a), mag((a*b)/b)=mag(a), a op b computed twice on the same operand "
     "objects gives the model amount both times, every tree with a unit conversion evaluates identically on the "
     "long-lived database of the shard and on a freshly built one, and a battery of products matching one of its unit "
-    "pairs in both directions with exponents +-2, +-3 agrees with the model on the long-lived database, a**n == n-fold product. Non-trivial = some "
+    "pairs in both directions with exponents +-2, +-3 agrees with the model on the long-lived database, a**n == n-fold product. Also a*b, b*a, a/b, b/a, a*a, a/a, (a*b)/b with a created directly on a derived quantity that writes one quantity type in two units under two categories (m.km, m3/ft3; Scalar, list, ndarray), each computed twice. Non-trivial = some "
     "operand is converted (shared type, different units) with exponent != 1, or >= 3 leaves; distinct key = tree."
 )
 ASSUMPTIONS = ["UnitModel slopes come from single-unit float conversions (validated by C01)", "**0 and negative powers are outside the statement"]
@@ -314,6 +314,57 @@ class Checker:
             if v != math.floor(v) or v > true_q + tol or v <= true_q - 1 - tol:
                 ctx.fail("floor_division_wrong", case, "a//b = %r; true quotient in the result's units is %r (a=%r, b=%r)" % (r, true_q, a, b))
 
+    def check_mixed(self, case):
+        """a = amount created directly on a derived quantity that writes one quantity type in two units under two
+        categories (m.km, m3/ft3 ...); b = an ordinary amount.  Products and quotients still add the exponents per
+        quantity type and multiply the base magnitudes; a/a is dimensionless."""
+        from collections import OrderedDict
+
+        from barril.units import Array, Quantity, Scalar
+
+        ctx, db, um = self.ctx, self.db, self.um
+        fa, (ub, cb), kind, x, y = case["a"], case["b"], case["kind"], case["x"], case["y"]
+        qa = Quantity.CreateDerived(OrderedDict((c, [u, e]) for c, u, e in fa))
+        if kind == "scalar":
+            a, b = Scalar.CreateWithQuantity(qa, x), Scalar(y, ub, cb)
+        else:
+            a, b = Array.CreateWithQuantity(qa, gen.as_container(kind, [x, 2 * x])), Array(gen.as_container(kind, [y, 3 * y]), ub, cb)
+        ma = x
+        da = {}
+        for c, u, e in fa:
+            ma *= um.slope[u] ** e
+            da[um.qt[u]] = da.get(um.qt[u], 0) + e
+        da = {k: v for k, v in da.items() if v}
+        mb, dbb = y * um.slope[ub], {um.qt[ub]: 1}
+        ctx.cls("mixed_unit_operand")
+        ctx.nontrivial(("mixed", repr(fa), ub, cb, kind), case)
+        for what, fn, mm, md in (
+            ("a*b", lambda: a * b, ma * mb, dims_mul(da, dbb, 1)),
+            ("b*a", lambda: b * a, ma * mb, dims_mul(da, dbb, 1)),
+            ("a/b", lambda: a / b, ma / mb, dims_mul(da, dbb, -1)),
+            ("b/a", lambda: b / a, mb / ma, dims_mul(dbb, da, -1)),
+            ("a*a", lambda: a * a, ma * ma, dims_mul(da, da, 1)),
+            ("a/a", lambda: a / a, 1.0, {}),
+            ("(a*b)/b", lambda: (a * b) / b, ma, da),
+        ):
+            r = fn()
+            ctx.ev()
+            q = r.GetQuantity()
+            got_dims = dims_of_quantity(db, q)
+            if got_dims != md:
+                ctx.fail("dims_wrong:mixed_unit_operand", case, "%s with a=%r, b=%r has exponents %r, model %r (quantity %r)" % (what, a, b, got_dims, md, q))
+            if not md and q.GetUnit() != "":
+                ctx.fail("dimensionless_result_has_unit", case, "%s: dimensionless result renders unit %r" % (what, q.GetUnit()))
+            v0 = r.GetValue() if kind == "scalar" else float(list(r.GetValues())[0])
+            gm = mag_of(um, q, v0)
+            if math.isfinite(mm) and 1e-250 < abs(mm) < 1e250 and not relclose(gm, mm, 1e-9):
+                ctx.fail("magnitude_wrong:mixed_unit_operand", case, "%s with a=%r, b=%r evaluates to %r = %r in base units, model %r" % (what, a, b, r, gm, mm))
+            # the same operands once more
+            r2 = fn()
+            v2 = r2.GetValue() if kind == "scalar" else float(list(r2.GetValues())[0])
+            if v2 != v0 or repr(r2.GetQuantity()) != repr(q):
+                ctx.fail("product_not_repeatable:mixed_unit_operand", case, "%s computed twice on the same operands gives %r and then %r" % (what, r, r2))
+
     def _first_floor(self, t):
         if t[0] == "leaf":
             return None
@@ -354,6 +405,35 @@ def _case_strategy(ch, depth):
     return case()
 
 
+def _mixed_strategy(ch):
+    pool = ch.pool
+    qts = [qt for qt in pool.qts if len(pool.cats[qt]) >= 2 and len(pool.units[qt]) >= 2]
+    fav = [qt for qt in pool.fav if qt in qts]
+
+    @st.composite
+    def case(draw):
+        qt = draw(st.one_of(st.sampled_from(fav), st.sampled_from(qts))) if fav else draw(st.sampled_from(qts))
+        c1, c2 = draw(st.permutations(pool.cats[qt]))[:2]
+        u1, u2 = draw(st.permutations(pool.units[qt]))[:2]
+        e1, e2 = draw(st.sampled_from([(1, 1), (1, 2), (2, 1), (2, -1), (1, -2), (1, -1)]))
+        fa = [[c1, u1, e1], [c2, u2, e2]]
+        if draw(st.booleans()):
+            qt3 = draw(pool.qt_strategy())
+            if qt3 != qt:
+                fa.append([draw(st.sampled_from(pool.cats[qt3])), draw(st.sampled_from(pool.units[qt3])), draw(st.sampled_from([1, -1, 2]))])
+        qtb = draw(st.sampled_from([qt, qt, draw(pool.qt_strategy())]))
+        return {
+            "mixed": True,
+            "a": fa,
+            "b": [draw(st.sampled_from(pool.units[qtb])), draw(st.sampled_from(pool.cats[qtb]))],
+            "kind": draw(st.sampled_from(["scalar", "scalar", "list", "ndarray"])),
+            "x": draw(gen.moderate_values(1e-2, 1e2)),
+            "y": draw(gen.moderate_values(1e-2, 1e2)),
+        }
+
+    return case()
+
+
 def _fix_tree(t):
     if isinstance(t, (list, tuple)):
         if t and t[0] == "leaf":
@@ -380,11 +460,23 @@ def run_shard(spec, ctx):
             return test
 
         core.hunt(ctx, mk, spec["seed"] * 1000 + spec["shard"], spec["n"])
+        mixed = _mixed_strategy(ch)
+
+        def mk2():
+            @given(mixed)
+            def test(case):
+                core.guarded(ctx, ch.check_mixed, case)
+
+            return test
+
+        core.hunt(ctx, mk2, spec["seed"] * 1000 + spec["shard"] + 500, max(100, spec["n"] // 6))
 
 
 def replay(case, ctx):
     db = env.new_db("posc")
     with env.pushed(db):
         ch = Checker(ctx, db)
+        if case.get("mixed"):
+            return core.replay_guarded(ctx, ch.check_mixed, case)
         case = {"tree": _fix_tree(case["tree"]), "kind": case["kind"]}
         return core.replay_guarded(ctx, ch.check_tree, case)
